@@ -940,6 +940,7 @@ def run1(v, tier, seed):
         "trace validation: system-call sizes chosen by look-ahead on the operation's next recorded delivery (argument in tools/props/C14.py)",
         "Io.tla: stream channels (stream channels on regular files are exercised and validated); DISPATCH_IO_RANDOM channels: IoRandom.tla (offsets relative to the position at creation, round-robin chunks of non-conflicting operations, holes, EOF) with TLC-emitted vectors replayed on real files; the disk engine's read-ahead advice is not modelled",
         "cleanup-after-handlers is judged for operations submitted before close/stop was called",
+        "random-access replay: the driver moves the descriptor's file position between batches, while no operation is in flight (the only way to observe that offsets count from the position at channel creation); the library uses pread/pwrite on such channels",
     ]
     t = threading.Thread(target=lambda: None)
     err = []
